@@ -1,3 +1,4 @@
 SPECIFICATION Spec
+CONSTANT Dev = "detectorless_after_peek_gets_raw_conn"
 INVARIANT Inv
 CHECK_DEADLOCK FALSE
